@@ -540,7 +540,9 @@ func run(r *mon.Run) {
 		for name, v := range map[string]string{
 			"same-origin-other-path": "https://example.com/a/b?c", "other-scheme": "http://example.com/resource.validity", "other-host": "https://example.org/resource.validity",
 			"subdomain": "https://www.example.com/resource.validity", "suffix-host": "https://example.com.evil.example/v", "other-port": "https://example.com:8443/v", "relative": "/resource.validity", "empty": "",
-			"userinfo-trick": "https://example.com@evil.example/v", "data-url": "data:text/plain,x"} {
+			"userinfo-trick": "https://example.com@evil.example/v", "data-url": "data:text/plain,x",
+			// strings that are not URLs at all (url.Parse refuses them): no origin, so not the request's origin
+			"unparsable-port": "https://example.com:44x/v", "unparsable-port-other-host": "https://evil.example:port/v", "unparsable-ipv6": "https://[::1/v", "unparsable-negative-port": "https://example.com:-1/v"} {
 			if !mine() {
 				continue
 			}
